@@ -116,6 +116,10 @@ def cases(draw):
         env["SHELL"] = "/data/data/com.termux/files/usr/bin/bash"
     c["environ"] = env
     c["calls"] = draw(st.lists(st.sampled_from(CALLS), min_size=1, max_size=4))
+    # the query timeout set by the application (set_query_timeout); reply delays scale with it, so that with a longer
+    # timeout replies may take longer than the default 0.1 s and still be on time
+    c["timeout"] = draw(st.sampled_from([0.1, 0.1, 0.1, 0.25, 0.05]))
+    c["profile"]["delays"] = [d * c["timeout"] / 0.1 for d in c["profile"]["delays"]]
     return c
 
 
@@ -178,6 +182,8 @@ def check_queries(c, rec):
         os.environ.pop(k, None)
     os.environ.update(c["environ"])
     T.reset(p)
+    if c.get("timeout", 0.1) != 0.1:
+        TI.set_query_timeout(c["timeout"])
     if c["swap"]:
         TI.enable_win_size_swap()
     if not c["enabled"]:
@@ -186,7 +192,7 @@ def check_queries(c, rec):
     swap = c["swap"]
     environ = c["environ"]
     timeout = U._query_timeout
-    ctx = f"profile={p} win={c['win']} swap={c['swap']} enabled={enabled} env={environ}"
+    ctx = f"profile={p} win={c['win']} swap={c['swap']} enabled={enabled} env={environ} timeout={timeout}"
     try:
         for call in c["calls"]:
             t0, s0 = T.now, T.selects
